@@ -1,11 +1,11 @@
 CONSTANTS
-  Subs = {1, 2, 3}
+  Subs = {1, 2}
   RegisterBeforeInit = FALSE
   Literal = {}
   ReleaseOnRefusal = TRUE
-  OwnAtTag = TRUE
+  OwnAtTag = FALSE
   Streaming = {}
-INIT GenInit
-NEXT GenNext
-CONSTRAINT GenConstraint
+INIT Init
+NEXT Next
+INVARIANTS TypeOK NoDataRace AtMostOnce NobodyStuck GoodEnd
 CHECK_DEADLOCK FALSE
